@@ -1,11 +1,13 @@
 import S3V.Props.C04
 /-!
-# C04 — kernel-checked counterexample to the full error-document round trip (finding `F-errdoc-1`)
+# C04 — regression example for finding `F-errdoc-1` (fixed in /repo by commit 7fbc5bc)
 
-An error whose message is `a\rb` is rendered with the carriage return written raw; the reader of the
-error-document grammar (XML 1.0 §2.11: a lone `#xD` is passed on as `#xA`) reads the message `a\nb`.
-The same input is replayed on the real code by `corpus/errdoc.txt` (`w-cr-message`).
-Outside the pass/fail gate: this file documents the witness.
+Before the repair `xml::ser::text` wrote U+000D raw; an XML 1.0 reader (§2.11) passes a lone `#xD` on as
+`#xA`, so an error whose message is `a\rb` was read back as `a\nb` and the round-trip statement was false
+(this file then held `C04_counterexample_cr : ¬ C04_error_doc_roundtrip_full`).  After the repair the model
+writes `&#13;`, `S3V.C04.C04_error_doc_roundtrip` is a full theorem, and the old witness is kept here as a
+kernel-evaluated regression example.  The same input is replayed on the real code by `corpus/errdoc.txt`
+(`w-cr-message`, `w-crlf-request-id`).  Outside the pass/fail gate.
 -/
 namespace S3V.Findings.C04
 open S3V S3V.Gen.Errors S3V.ErrorDoc S3V.ErrorDocSpec S3V.ErrorDocThm S3V.C04
@@ -16,23 +18,20 @@ def eCR : S3Error :=
 
 def nameCR : Bytes := variantIdent .NoSuchKey
 
-/-- what the document says: the message with a line feed in place of the carriage return -/
+/-- the message element is written `a&#13;b` -/
+theorem cr_written_as_reference :
+    optElement tMessage eCR.message
+      = [60] ++ tMessage ++ [62] ++ [97, 38, 35, 49, 51, 59, 98] ++ [60, 47] ++ tMessage ++ [62] := by decide
+
+/-- and the document says what the error said: the carriage return comes back -/
 theorem cr_read_back :
     parseErrorDoc (bodyOf nameCR eCR false)
-      = some { code := nameCR, message := some [97, 10, 98], requestId := none } := by decide +kernel
+      = some { code := nameCR, message := some [97, 13, 98], requestId := none } := by decide +kernel
 
-theorem C04_counterexample_cr : ¬ C04_error_doc_roundtrip_full := by
-  intro h
-  obtain ⟨r, hr⟩ := C04_serialize_error_total eCR false
-  have hname : asStr eCR.code = some nameCR := by decide +kernel
-  have hcar : Carriable nameCR eCR := by
-    refine ⟨by decide +kernel, ?_, ?_⟩ <;> intro x hx <;> cases hx <;> decide
-  have hfull := h eCR false r nameCR hr hname hcar
-  have hb : r.body = bodyOf nameCR eCR false := by
-    simp only [serializeError, hname] at hr
-    cases hr
-    rfl
-  rw [hb, cr_read_back] at hfull
-  exact absurd hfull (by decide)
+/-- what a raw carriage return would be read as (the behaviour before the repair): a line feed -/
+theorem raw_cr_would_read_as_lf :
+    parseErrorDoc ([60] ++ nError ++ [62] ++ [60] ++ nCode ++ [62, 88, 60, 47] ++ nCode ++ [62]
+        ++ [60] ++ nMessage ++ [62, 97, 13, 98, 60, 47] ++ nMessage ++ [62] ++ [60, 47] ++ nError ++ [62])
+      = some { code := [88], message := some [97, 10, 98], requestId := none } := by decide +kernel
 
 end S3V.Findings.C04
